@@ -2123,3 +2123,187 @@ def k11e_parser_options(core, rep):
                    f'{rel}:{c.lineno}')
     if n < 3:
         raise AnalysisError('configuration parsers not found (anchor vanished)')
+
+
+def k12c_who_calls(core, rep):
+    """Forms are added and lines are evaluated only from the places the demand-closure argument knows: `_add_form` is called
+    from solve() (requested forms), the UnmetDependency handler of `_attempt_field` (a line that was read) and
+    `_add_input_spec` (input-only); `_attempt_field` from solve() and from its own retry; the tracker is drained
+    (`met_dependents`) only in solve().  Anything else adds forms nobody referred to, or evaluates lines in the middle of a
+    round of questions against inputs that are still going to change."""
+    s = core.solver
+    allowed = {'_add_form': {'solve', '_attempt_field', '_add_input_spec'},
+               '_attempt_field': {'solve', '_attempt_field'},
+               'met_dependents': {'solve'}}
+    seen = {k: 0 for k in allowed}
+    for f in core.funcs:
+        if f.rel != s.rel:
+            continue
+        for c in calls_in(f.node):
+            nm = call_name(c)
+            if nm in allowed and isinstance(c.func, ast.Attribute):
+                if nm == 'met_dependents' and f.cls == 'DependencyTracker':
+                    continue
+                inner = enclosing_function(c)
+                fname = inner.name if inner is not None else f.name
+                seen[nm] += 1
+                rep.ob('K12c', f'{nm}-called-from/{fname}@{unparse(c, 40)}', fname in allowed[nm],
+                       f'{fname}() calls {nm}(): ' + {'_add_form': 'a form is added although no requested form and no evaluated line referred to it',
+                                                        '_attempt_field': 'lines are evaluated outside the work-list loop of solve(), e.g. between two questions of the same round, against inputs that later answers still change',
+                                                        'met_dependents': 'waiting lines are released outside the work-list loop of solve()'}[nm], _w(f, c))
+    if min(seen.values()) < 1:
+        raise AnalysisError(f'call sites not found: {seen} (anchor vanished)')
+
+
+def k13c_unknown_line_aborts(core, rep):
+    """In the UnmetDependency handler a dependency that is still unknown after its form was loaded stops the solve (assertion):
+    scheduling the dependency is not made conditional on its being known - otherwise the form is re-added and the same
+    lines are re-queued for ever."""
+    s = core.solver
+    f = s.attempt
+    handlers = [h for h in ast.walk(f.node) if isinstance(h, ast.ExceptHandler) and 'UnmetDependency' in _handler_types(h)]
+    if len(handlers) != 1:
+        raise AnalysisError('_attempt_field: UnmetDependency handler not found (anchor vanished)')
+    h = handlers[0]
+    sched = [c for c in calls_in(h) if call_name(c) == '_add_unattempted']
+    if not sched:
+        raise AnalysisError('UnmetDependency handler: scheduling call not found (anchor vanished)')
+    bad = []
+    for c in sched:
+        p = getattr(c, 'parent', None)
+        while p is not None and p is not h:
+            if isinstance(p, ast.If):
+                t = unparse(p.test)
+                if s.field_map in t and ' not in ' not in t and ' in ' in t and p.body and any(c in list(ast.walk(b)) for b in p.body):
+                    bad.append(p)
+            p = getattr(p, 'parent', None)
+    asserts = [a for a in ast.walk(h) if isinstance(a, ast.Assert) and s.field_map in unparse(a.test)] + \
+              [r for r in ast.walk(h) if isinstance(r, ast.Raise)]
+    rep.ob('K13c', 'unknown-dependency-stops-the-solve', bool(asserts) and not bad,
+           'the UnmetDependency handler schedules the dependency only "if it is known" instead of stopping on an unknown name: '
+           'a required line that refers to a line its own form does not have re-adds the form and re-queues the same lines without bound', _w(f, (bad or [h])[0]))
+
+
+def k18b_write_reaches_the_file(core, rep):
+    """InputStore.write(filename) puts the configuration into `filename` whenever it returns normally: it writes to the file itself,
+    or to a temporary file that is then moved over `filename` unconditionally; it never consults the exception state
+    (sys.exc_info) - the CLI calls it from a `finally` block while an exception may be in flight."""
+    f = core.method('InputStore', 'write')
+    fname = f.node.args.args[1].arg
+    uses_exc = [x for x in ast.walk(f.node) if isinstance(x, ast.Attribute) and x.attr in ('exc_info', 'exception', 'last_exc') or
+                (isinstance(x, ast.Name) and x.id in ('exc_info',))]
+    direct = [c for c in calls_in(f.node) if call_name(c) == 'open' and c.args and isinstance(c.args[0], ast.Name) and c.args[0].id == fname
+              and len(c.args) > 1 and isinstance(c.args[1], ast.Constant) and 'w' in str(c.args[1].value)]
+    moved = []
+    for c in calls_in(f.node):
+        if call_name(c) in ('replace', 'rename', 'move') and len(c.args) == 2 and isinstance(c.args[1], ast.Name) and c.args[1].id == fname:
+            cond = False
+            p = getattr(c, 'parent', None)
+            while p is not None and p is not f.node:
+                if isinstance(p, (ast.If, ast.ExceptHandler, ast.IfExp, ast.While)):
+                    cond = True
+                p = getattr(p, 'parent', None)
+            moved.append((c, cond))
+    ok = not uses_exc and (bool(direct) or any(not cond for _c, cond in moved))
+    rep.ob('K18b', 'write-reaches-the-named-file', ok,
+           'InputStore.write() does not put the configuration into the file it is given on every normal return '
+           + ('(it consults the exception state: called from the finally block of the CLI while an exception is in flight, it discards the answers)' if uses_exc else
+              '(the move over the target file is conditional)'), _w(f, (uses_exc or [f.node])[0]))
+
+
+def k11h_ascii_validators(core, rep):
+    """validators compare characters with explicit ASCII sets: the Unicode-aware predicates of str (isdigit, isnumeric,
+    isdecimal, isalnum, isalpha) accept Arabic-Indic, full-width or superscript digits"""
+    bad = []
+    for fn in core.funcs:
+        if fn.rel != 'habutax/inputs.py':
+            continue
+        for c in calls_in(fn.node):
+            if isinstance(c.func, ast.Attribute) and c.func.attr in ('isdigit', 'isnumeric', 'isdecimal', 'isalnum', 'isalpha') and not c.args:
+                bad.append((fn, c))
+    rep.ob('K11h', 'validators-use-ascii-sets', not bad,
+           f'{bad[0][0].qual if bad else ""} tests characters with str.{bad[0][1].func.attr if bad else ""}(), which is true for every Unicode digit/letter: text such as "١٢٣٤٥٦٧٨٩" or "12345678²" passes the validator and reaches the lines',
+           _w(bad[0][0], bad[0][1]) if bad else '')
+
+
+def k23g_box_value_set_in_every_round(core, rep):
+    """In the loop of _fill_form the text written for a box is assigned in that very iteration on every path to the store:
+    no value is carried over from the previous box (an optional line that was never computed leaves its box blank)."""
+    f = core.method('PDFFiller', '_fill_form')
+    g = f.cfg
+    stores = []
+    for n in g.nodes:
+        if n.kind == 'stmt' and isinstance(n.ast, ast.Assign) and isinstance(n.ast.targets[0], ast.Subscript) \
+                and isinstance(n.ast.targets[0].value, ast.Name) and isinstance(n.ast.value, ast.Name):
+            inner = enclosing_loop(n.ast)
+            if inner is not None:
+                stores.append((n, n.ast.value.id, inner))
+    if not stores:
+        raise AnalysisError('_fill_form: the store of the box text was not found (anchor vanished)')
+    for (n, var, loop) in stores:
+        assigns = {m.id for m in g.nodes if m.kind == 'stmt' and m.ast is not None and enclosing_loop(m.ast) is loop and any(
+            isinstance(x, (ast.Assign, ast.AugAssign)) and any(isinstance(t, ast.Name) and t.id == var for t in (x.targets if isinstance(x, ast.Assign) else [x.target]))
+            for x in [m.ast])}
+        heads = [m for m in g.nodes if m.kind == 'iter' and m.ast is loop or (m.kind in ('iter', 'test') and getattr(m, 'ast', None) is loop.iter)]
+        heads = heads or [m for m in g.nodes if m.kind == 'iter' and getattr(m, 'lineno', None) == loop.lineno]
+        if not heads:
+            heads = [m for m in g.nodes if m.kind == 'iter']
+        ok = bool(assigns) and all(not g.paths_avoiding(s2, n, assigns) for h in heads for s2 in h.succ if enclosing_loop_node(s2, loop))
+        rep.ob('K23g', f'{var}-assigned-in-every-iteration', ok,
+               f'PDFFiller._fill_form() can reach `{unparse(n.ast, 50)}` without having assigned `{var}` in the same iteration: the box is then filled with the text of the previous box', _w(f, n.ast))
+
+
+def enclosing_loop(node):
+    p = getattr(node, 'parent', None)
+    while p is not None and not isinstance(p, (ast.For, ast.While)):
+        if isinstance(p, (ast.FunctionDef, ast.Lambda)):
+            return None
+        p = getattr(p, 'parent', None)
+    return p
+
+
+def enclosing_loop_node(cfg_node, loop):
+    a = getattr(cfg_node, 'ast', None)
+    if a is None:
+        return False
+    p = a
+    while p is not None:
+        if p is loop:
+            return True
+        p = getattr(p, 'parent', None)
+    return False
+
+
+def k22f_solution_written_unfiltered(core, rep):
+    """The solution is serialised straight into the output file (or the in-memory writer that is printed): nothing between
+    ConfigParser.write and the file re-splits or rewrites the text."""
+    f = core.func('habutax/__init__.py', None, 'solve')
+    writes = [c for c in calls_in(f.node) if call_name(c) == 'write' and isinstance(c.func, ast.Attribute) and isinstance(c.func.value, ast.Name) and c.func.value.id == 'solution']
+    if not writes:
+        raise AnalysisError('CLI solve(): solution.write(...) not found (anchor vanished)')
+    with_names = {}
+    for w in ast.walk(f.node):
+        if isinstance(w, ast.With):
+            for it in w.items:
+                if isinstance(it.optional_vars, ast.Name) and isinstance(it.context_expr, ast.Call) and call_name(it.context_expr) == 'open':
+                    with_names[it.optional_vars.id] = it
+    local_classes = {c.name: c for c in ast.walk(f.node) if isinstance(c, ast.ClassDef)}
+    for c in writes:
+        a = c.args[0] if c.args else None
+        ok = False
+        why = ''
+        if isinstance(a, ast.Name) and a.id in with_names:
+            ok = True
+        elif isinstance(a, ast.Name):
+            # an in-memory writer: its write() only appends
+            inst = [x for x in ast.walk(f.node) if isinstance(x, ast.Assign) and isinstance(x.targets[0], ast.Name) and x.targets[0].id == a.id and isinstance(x.value, ast.Call)]
+            cls = local_classes.get(call_name(inst[0].value)) if inst else None
+            if cls is not None:
+                wm = [m for m in cls.body if isinstance(m, ast.FunctionDef) and m.name == 'write']
+                ok = len(wm) == 1 and len(wm[0].body) == 1 and isinstance(wm[0].body[0], ast.AugAssign) and isinstance(wm[0].body[0].op, ast.Add) \
+                    and isinstance(wm[0].body[0].value, ast.Name) and wm[0].body[0].value.id == wm[0].args.args[1].arg \
+                    and not [x for x in cls.body if isinstance(x, ast.FunctionDef) and x.name == 'write' and len(x.args.args) != 2]
+                ok = ok and not (isinstance(inst[0].value, ast.Call) and inst[0].value.args)
+                why = 'its write() does more than append what it is given'
+        rep.ob('K22f', f'solution-written-unfiltered@{unparse(c, 40)}', ok,
+               f'the solution is written through `{unparse(a, 40) if a is not None else ""}`, not straight into the opened file{": " + why if why else ""}: text values can be split or rewritten on the way (e.g. at Unicode line separators)', _w(f, c))
